@@ -2,7 +2,7 @@
 import vcheck
 
 PID = "C05"
-MODULES = ["BeffVerif.Props.C05", "BeffVerif.Props.C05Flat", "BeffVerif.Props.C05Tuple", "BeffVerif.Props.C05Union", "BeffVerif.Props.C05ListUnion"]
+MODULES = ["BeffVerif.Props.C05", "BeffVerif.Props.C05Flat", "BeffVerif.Props.C05Tuple", "BeffVerif.Props.C05Union", "BeffVerif.Props.C05ListUnion", "BeffVerif.Props.C05UnionSub"]
 AUDIT = "BeffVerif/Audit/C05.lean"
 HYP = {"NoObjectUnionOnLeft": "D25", "NoIndexUnionOnRight": "D84"}
 
